@@ -139,6 +139,8 @@ def h_slots(c, owners=(0, 1, 2), events=2, first=None, second=None, nu=None, gap
             c.check(t.state.VALUE == ST.QUEUED, 'started_upload_was_queued', sig=['scenario'])
         loop.on_task = on_task
 
+        budget = {'latency_choices': 3}
+
         def start_rec_of(task):
             return next((r for r in starts if r['task'] is task), None)
 
@@ -149,6 +151,9 @@ def h_slots(c, owners=(0, 1, 2), events=2, first=None, second=None, nu=None, gap
             if rec is None or reached_initializing(rec):
                 return
             c.reach('environment_call_before_initializing')
+            budget['latency_choices'] -= 1
+            if budget['latency_choices'] < 0:
+                return                          # bound: only the first 3 such calls of a path are split
             if c.choose(2, 'call_before_initializing_is_slow') == 1:
                 c.note(f't={loop.time():.2f} {what} of {rec["transfer"].remote_path} is slow')
                 await asyncio.sleep(0.12)
